@@ -7,22 +7,22 @@ import (
 )
 
 // SELF — probes of the machinery itself (used by `./check selftest`, not a property):
-// a known unsynchronised write in the stack (SetWriteApprovalTimeout from two tasks) must be
-// reported by the race build under owned schedules, proving that the hidden hand-offs do not
-// blind the detector.
+// two tasks write one variable without any synchronisation of their own. The only thing that
+// orders them is the scheduler's token passing; the race build must nevertheless report the
+// pair, proving that the hidden hand-offs do not blind the detector.
+var selfProbeVar int
+
+func selfRaceBump(i int) { selfProbeVar += i }
+
 func init() {
 	Register(&Scenario{
 		Prop: "SELF", Name: "race-probe", Race: true,
 		Build: func(w *World) {
-			L := w.NewNode("L", "d:_i:L", model.NetworkManagementFeatureSetTypeSmart)
-			le := L.NewLocalEntity([]uint{1}, model.EntityTypeTypeCEM, 4*time.Second)
-			f := le.AddFeature(model.FeatureTypeTypeLoadControl, model.RoleTypeServer)
-			L.AddEntity(le)
 			for i := 0; i < 2; i++ {
 				i := i
 				w.Go("racer", func() {
 					w.Yield("a")
-					f.F.SetWriteApprovalTimeout(time.Duration(i+1) * time.Second)
+					selfRaceBump(i + 1)
 					w.Yield("b")
 				})
 			}
@@ -31,31 +31,3 @@ func init() {
 	})
 }
 
-func init() {
-	Register(&Scenario{
-		Prop: "SELF2", Name: "snapshot-race-probe", Race: true,
-		Build: func(w *World) {
-			L := w.NewNode("L", "d:_i:L", model.NetworkManagementFeatureSetTypeSmart)
-			le := L.NewLocalEntity([]uint{1}, model.EntityTypeTypeCEM, 4*time.Second)
-			L.AddEntity(le)
-			le.E.AddUseCaseSupport(model.UseCaseActorTypeCEM, c20Names[0], "1.0.0", "r", true, nil)
-			d := &c11Data{w: w}
-			d.retain("uc", L.Dev.NodeManagement().DataCopy(model.FunctionTypeNodeManagementUseCaseData))
-			w.Go("reader", func() {
-				for i := 0; i < 6; i++ {
-					for _, s := range d.list("reader") {
-						_ = CanonAny(s.obj)
-					}
-					w.Yield("r")
-				}
-			})
-			w.Go("updates", func() {
-				w.Yield("u")
-				w.Yield("u")
-				le.E.AddUseCaseSupport(model.UseCaseActorTypeCEM, c20Names[1], "1.0.0", "r", true, nil)
-				w.Yield("u")
-			})
-		},
-		Check: func(w *World) {},
-	})
-}
